@@ -385,10 +385,10 @@ pub fn run_all(ctx: &mut Ctx, replay: Option<&Path>) {
     }
     ctx.regressions(&r);
     ctx.regressions(&d);
-    ctx.random(&r, aco_spec_strategy(ctx.tier.pick(80, 200)), ctx.tier.pick(3000, 30_000));
+    ctx.random(&r, aco_spec_strategy(ctx.tier.pick(80, 200)), ctx.tier.pick(8000, 40_000));
     ctx.random(
         &d,
         (2usize..10, 1usize..9, prop_oneof![Just(0.0), Just(1.0), 0.0f64..3.0], prop_oneof![Just(0.0), Just(1.0), 0.0f64..3.0], 0u8..5, 0u8..4, any::<u64>(), 0u8..3, prop_oneof![Just(0.0), Just(0.5), Just(1.0), 0.0f64..=1.0]).prop_map(|(n, ants, alpha, beta, matrix, dist_kind, seed, update, rho)| DirectCase { n, ants, alpha, beta, matrix, dist_kind, seed, update, rho }),
-        ctx.tier.pick(4000, 40_000),
+        ctx.tier.pick(12_000, 60_000),
     );
 }
